@@ -31,6 +31,10 @@ ASSUMPTIONS = [
     'a file that picotool cannot lex + parse COMPLETELY on its own (error, or the parser stops before the last '
     'token, as it silently does after a `return`) is outside C14 (that is C07 / C08); such runs are compared with '
     'the model but not judged',
+    'a package with a game-loop definition directly in the body / else part of a one-line if of its root chunk '
+    '(`if (x) function _init() end`) is compared with the model but not judged: the definition is no statement of the '
+    'root chunk, build.py keeps it, the monitor\'s token-level spec_strip would remove it '
+    '(C14_spec_strip_shortif_refuted); this is the shortif_clean hypothesis of C14_stripped_pkg_spec_clean_partial',
 ]
 PARTIAL = ('The token-level clause is a theorem (C14_tokens_spec_any_newline: tokens of the cart = package preamble ++ per '
            'table entry (header ++ echoed package ++ end) ++ require() preamble ++ the main program\'s tokens, unchanged; '
@@ -40,15 +44,19 @@ PARTIAL = ('The token-level clause is a theorem (C14_tokens_spec_any_newline: to
            'newline is covered: Proofs/LexerChunkNl.v proves that the separate newline line build.py inserts is lexed as if '
            'glued to the text). C14_pkg_conditions_unstripped_any_newline proves those conditions, and that the echoed code '
            'has exactly the file\'s tokens, for packages embedded with {use_game_loop=true} from ANY byte file of the '
-           'dialect. RESIDUAL, visible in the statements: packages embedded WITHOUT their game loop (the default). The '
-           'lexer-stack half is proved (C14_strip_lexical: replacing runs of whole tokens, each starting at a word, by a space '
-           'keeps every other significant token of a dialect text; C14_stripped_pkg_partial: the re-lexed package is in the '
-           'dialect, its echoed lines are bytes ending in LF, its token views are those of the file\'s tokens outside the '
-           'ranges strip_stats cuts). What stays HYPOTHESES, both about the parser\'s statement ranges and both decidable '
-           '(ranges_okb; an equality of token lists): the ranges of the game-loop statements are non-empty, ordered and start '
-           'at a word token, and the tokens outside them are those Spec/RequireSpec.spec_strip keeps '
-           '(C14_stripped_pkg_spec_partial). C14_strip_only_removes is unconditional. The residue is checked on every run by '
-           'the extracted monitor holds_C14. '
+           'dialect. Packages embedded WITHOUT their game loop (the default): C14_stripped_pkg (NO hypothesis left) - for every '
+           'byte file of the dialect that builds, the re-lexed package is in the dialect, its echoed lines are bytes ending in LF '
+           '(the per-entry conditions) and its token views are those of the file\'s tokens outside the ranges build.py cuts; '
+           'the ranges are well formed by C14_strip_ranges_ok, which rests on C14_parse_extent, the statement-extent / '
+           'block-balance theorem of the parser model (every statement node spans exactly its tokens, is block-balanced, a '
+           'function statement is `function` .. balanced .. matching `end`). RESIDUAL, visible in the statement of '
+           'C14_stripped_pkg_spec_clean_partial (those tokens = the file\'s tokens minus its top-level game-loop definitions as '
+           'Spec/RequireSpec.spec_strip describes them): two boolean hypotheses - fully_parsed (the parser consumed the whole '
+           'file; implied by C08_complete for files with a derivation, C14_fully_parsed_of_derivation) and shortif_clean (no '
+           'game-loop definition directly in the body / else part of a one-line if of the root chunk). The second cannot be '
+           'dropped: C14_spec_strip_shortif_refuted (`if (x) function _init() y=2 end`: build.py keeps the definition, which is '
+           'not a statement of the root chunk; the token-level reference description would remove it - a gap of the reference '
+           'description, not a defect; such packages are not judged by the monitor). C14_strip_only_removes is unconditional. '
            'C14_structure_bytes / C14_unstripped_block assume a BYTE-faithful echo, which picotool\'s lexer has only for '
            'sources whose quoted strings are spelled canonically (C06: other strings are re-spelled).')
 CLAIM = dict(
@@ -68,8 +76,12 @@ CLAIM = dict(
           "C14_pkg_conditions_unstripped proves for {use_game_loop=true} packages; C14_tokens_spec_any_newline / "
           "C14_pkg_conditions_unstripped_any_newline / C14_prepended_lines_chunking: the same without any condition on the "
           "final newline of a package (the separate newline line build.py inserts is lexed as if glued to the text); "
-          "C14_strip_lexical / C14_stripped_pkg_partial / C14_stripped_pkg_spec_partial: packages embedded without their game "
-          "loop, relative to two decidable hypotheses about the parser's statement ranges (see partial). Tie: correspondence of the extracted model (full lexer+parser+walker stack) with the real "
+          "C14_strip_lexical / C14_parse_extent / C14_strip_ranges_ok / C14_stripped_pkg / C14_pkg_conditions_stripped: packages embedded without their game "
+          "loop have exactly the file's tokens outside the ranges build.py cuts, no hypothesis (the parser model's statement "
+          "extents are proved block-balanced, one specification per parse function); C14_strip_ranges_spec / "
+          "C14_stripped_pkg_spec_clean_partial: and these are the file's tokens minus its top-level game-loop definitions, "
+          "for files the parser consumes entirely and without a game-loop definition directly inside a one-line if "
+          "(C14_spec_strip_shortif_refuted shows the exclusion is needed; see partial). Tie: correspondence of the extracted model (full lexer+parser+walker stack) with the real "
           "`p8tool build` on generated package graphs (code bytes of OUT.p8, error class), RequireWalker alone on "
           "every generated file, and the extracted instance predicate holds_C14 (Spec/ + Base/ only: reference "
           "tokenizer, token-level require / game-loop / load-path description written from the README) on the real "
@@ -481,6 +493,13 @@ def corpus_cases():
     yield _mk({'main.lua': b'a=require("\x80")\n', '\x80.lua': b'return 2\n'}, tag='name-not-utf8')
     yield _mk({'src/main.lua': b'x=require("u")\n', 'shared/u.lua': b'function _init() end\nreturn 1'}, main='src/main.lua',
               arg=SB + '/shared/?.lua;?', tag='abs-path')
+    # the example of C14_example_stripped_full: nested blocks, a one-line if with else, look-alikes
+    yield _mk({'main.lua': b'x=require("a")\n',
+               'a.lua': b'local t={}\nfunction _update()\n for i=1,3 do\n  if (t[i]) t[i]+=1 else t[i]=0\n'
+                        b'  while t[i]>9 do t[i]-=1 end\n end\n if t[1] then return end\nend\nfunction t.draw() end\n'
+                        b'if (t) function helper() end\nreturn t\n'}, tag='gl-nested-blocks')
+    # C14_spec_strip_shortif_refuted: a game-loop definition in the body of a one-line if stays (not judged by the monitor)
+    yield _mk({'main.lua': b'x=require("a")\n', 'a.lua': b'x=1\nif (x) function _init() y=2 end\nz=3\n'}, tag='gl-in-shortif')
 
 
 # ------------------------------------------------------------------------------------------ implementation
@@ -499,6 +518,22 @@ def _code_of_p8(data):
     i = data.index(b'__lua__\n') + 8
     j = data.rindex(b'__gfx__\n')
     return lua.unicode_to_p8scii(data[i:j].decode('utf-8'))
+
+
+def _parser_mod():
+    from pico8.lua import parser as pr
+    return pr
+
+
+def _exposed(node):
+    """Mirror of Proofs/ParserExtent2.exposed on the real tree."""
+    pr = _parser_mod()
+    if isinstance(node, pr.StatFunction):
+        fn = node.funcname
+        return len(fn.namepath) == 1 and fn.methodname is None and fn.namepath[0].value in GL
+    if isinstance(node, pr.StatIf) and getattr(node, 'short_if', False):
+        return any(_exposed(st) for (_c, blk) in node.exp_block_pairs for st in blk.stats)
+    return False
 
 
 def run_impl(case):
@@ -565,8 +600,12 @@ def run_impl(case):
             from pico8.lua import lexer as lx
             rest = lo.tokens[lo._parser._pos:]
             complete = all(isinstance(t, (lx.TokSpace, lx.TokNewline, lx.TokComment)) for t in rest)
+            # a game-loop definition directly in the body / else part of a one-line if of the root chunk is no
+            # statement of the root chunk (build.py keeps it), but the token-level description of the monitor cannot
+            # tell: outside the description (shortif_clean of C14_stripped_pkg_spec_clean_partial)
+            clean = not any(_exposed(st) for st in lo.root.stats if not isinstance(st, _parser_mod().StatFunction))
             alone[rel] = {'err': None, 'items': items, 'werr': werr, 'echo': lib.hx(b''.join(lo.to_lines())),
-                          'complete': complete}
+                          'complete': complete, 'clean': clean}
         obs['alone'] = alone
     finally:
         util._error_stream = old_stream
@@ -631,7 +670,7 @@ def in_domain(case, obs):
     for rel, al in obs['alone'].items():
         if rel == 'unused.lua':
             continue
-        if al['err'] is not None or not al.get('complete', True):
+        if al['err'] is not None or not al.get('complete', True) or not al.get('clean', True):
             return False
     return True
 
